@@ -264,7 +264,8 @@ def scene_control(c):
     br, ct = d(st.integers(0, 7)), d(st.integers(0, 7))
     loop = d(st.sampled_from(["for", "while", "do"]))
     c.labels.add("loop:" + loop)
-    cases = sorted(set(d(st.lists(st.integers(-3, 12), min_size=1, max_size=6))))
+    # case labels in the order drawn (not sorted: the order decides the shape of the compiler's case tree), up to 12 of them
+    cases = d(st.lists(st.integers(-3, 14), min_size=1, max_size=12, unique=True))
     swt = d(st.sampled_from(["int", "unsigned char", "long", "unsigned long", "short", "enum e1"]))
     body = ["unsigned acc = %du; %s i = 0; int j;" % (d(st.integers(0, 99)), "int")]
     inner = ["for (j = 0; j < %d; j++) {" % n2,
